@@ -238,6 +238,11 @@ var routings = []struct{ id, expr string }{
 	{"quasiquote-const-sublist-view", "(cdr (car (cdr (quasiquote ((unquote (+ 0 0)) %b)))))"},
 	{"quasiquote-spliced", "(cdr (quasiquote (0 (unquote-splicing %s))))"},
 	{"macro-template-const", "(mac-const)"},
+	// macroexpand over a quoted literal FORM: the inner macro's &rest list is a view of the literal's own cells
+	{"macroexpand-rest", "(car (cdr (macroexpand '(mac-rest 3 1 2))))"},
+	{"macroexpand-passthru-rest", "(car (cdr (macroexpand '(passthru (mac-rest 3 1 2)))))"},
+	{"macroexpand-1-rest", "(car (cdr (macroexpand-1 '(mac-rest 3 1 2))))"},
+	{"macroexpand-passthru2-rest", "(car (cdr (macroexpand '(passthru (passthru (mac-rest 3 1 2))))))"},
 }
 
 var literals = []struct{ id, text string }{
@@ -261,7 +266,7 @@ type rcase struct {
 	Std bool   `json:"stdlib"`
 }
 
-const routingPrelude = "(defmacro mac-rest (&rest xs) (quasiquote (quote (unquote xs))))\n(defmacro mac-const () (quasiquote (quote ((unquote (+ 1 2)) 1 2))))\n"
+const routingPrelude = "(defmacro mac-rest (&rest xs) (quasiquote (quote (unquote xs))))\n(defmacro mac-const () (quasiquote (quote ((unquote (+ 1 2)) 1 2))))\n(defmacro passthru (form) form)\n"
 
 func routeProgram(c callable, pos int, fill []string, rt, lit, mut int) string {
 	qual := c.name
@@ -367,11 +372,11 @@ func tableRouting(r *core.Run) {
 	}
 	var jobs []job
 	nfill := 3
-	rts := []int{0, 1, 2, 4, 6, 8, 10, 12, 13, 16}
+	rts := []int{0, 1, 2, 4, 6, 8, 10, 12, 13, 16, 18}
 	lits := []int{0, 1}
 	if r.Thorough() {
 		nfill = 5
-		rts = []int{0, 1, 2, 3, 4, 5, 6, 7, 8, 9, 10, 11, 12, 13, 14, 15, 16}
+		rts = []int{0, 1, 2, 3, 4, 5, 6, 7, 8, 9, 10, 11, 12, 13, 14, 15, 16, 17, 18, 19, 20}
 		lits = []int{0, 1, 2, 3}
 	}
 	for _, c := range cs {
@@ -741,7 +746,7 @@ func freeRunning(r *core.Run) {
 }
 
 func run(r *core.Run) {
-	r.Rule("A: every registered callable of a stdlib runtime x every argument position (<=3) x filler tuple x routing of a program literal into that position (quoted literal, cdr view, slice 'list view, nested element, &rest list, quasiquote output, macro &rest list, append copy, slice 'vector, append 'vector, apply into a &rest list, &rest view, constant top level / constant sub-list / view of a constant sub-list of a quasiquote template, spliced literal, constant part of a macro's template) x literal x follow-up mutator (none, stable-sort, append!, sort of the literal itself): shared parse loaded twice in one runtime and once in another vs a fresh parse; " +
+	r.Rule("A: every registered callable of a stdlib runtime x every argument position (<=3) x filler tuple x routing of a program literal into that position (quoted literal, cdr view, slice 'list view, nested element, &rest list, quasiquote output, macro &rest list, append copy, slice 'vector, append 'vector, apply into a &rest list, &rest view, constant top level / constant sub-list / view of a constant sub-list of a quasiquote template, spliced literal, constant part of a macro's template, the &rest list of a macro reached through macroexpand / macroexpand-1 of a quoted form directly and behind pass-through macros) x literal x follow-up mutator (none, stable-sort, append!, sort of the literal itself): shared parse loaded twice in one runtime and once in another vs a fresh parse; " +
 		"B: BFS over all load histories (runtime index per load, canonical numbering) up to the depth bound for every hand-written program; " +
 		"C: every schedule of K runtimes sharing one Program with at most the preemption bound, scheduling point = every evaluation step; invariants evaluated in every global state. Non-trivial: routing programs distinct by text; schedule programs by text")
 	r.Assume("the parsed tree is observed through lisp.SealedASTFingerprint plus an independent structural dump (type, name, numbers, quote/seal flags, positions, children) and lisp.TakeSingletonSnapshot")
